@@ -424,10 +424,12 @@ example : (match spfa Meas.i32 okView 0 with | some (some st) => tget st.d 2 | _
 set_option maxRecDepth 8000 in
 example : (match floydWarshall Meas.i64 okView with | some st => tget st.d (0, 2) | none => none) = some 1 := by decide
 
-/-- the model reproduces the recorded behaviour: `Some([1])`, which is not a closed walk -/
-theorem C11_find_negative_cycle_counterexample :
-    (match findNegativeCycle d15View 1 with | .some seq => seq | _ => []) = [1] ∧
-    checkNegClosedWalk d15View.g [1] = false ∧ bellmanFord d15View 1 = none := by
+/-- D15 is repaired in /repo (the detected relaxation is carried out before the predecessor walk) and
+the model follows: on the former D15 witness the answer is now a negative closed walk (it used to be
+`Some([1])`, which is not a walk at all). -/
+theorem C11_find_negative_cycle_d15_witness_repaired :
+    (match findNegativeCycle d15View 1 with | .some seq => checkNegClosedWalk d15View.g seq | _ => false) = true ∧
+    bellmanFord d15View 1 = none := by
   decide
 
 end PetgraphModel.C11T
